@@ -15,7 +15,7 @@ def tags_of(ctx):
 def cls_of(ev):
     if ev is None or ev['k'] != 'ext':
         return None
-    return prims.classify(ev['path'])[0]
+    return prims.classify_event(ev)[0]
 
 
 def roles_of(ev):
@@ -65,7 +65,8 @@ def path_class(ctx, q, v):
     if base != v and tb[0] == 'sym' and tb[1] == 'app':
         c = prims.classify(tb[2])[0]
         if c in ('open_ro', 'open_rw') and len(tb) > 4:
-            return 'Handle(%s)' % path_class(ctx, q, tb[4])
+            pi = 4 + prims.classify(tb[2])[1].get('path', 0)
+            return 'Handle(%s)' % path_class(ctx, q, tb[pi] if pi < len(tb) else tb[4])
         if c in ('temp_create_named', 'temp_create_anon', 'temp_create_named_default'):
             return 'TempFile'
         if tb[2] == 'std::path::Path::parent' and len(tb) > 4:
@@ -133,9 +134,10 @@ def obj_root(v):
         elif t[0] == 'sym' and t[1] == 'mut':
             v = t[2]
         elif t[0] == 'sym' and t[1] == 'app' and prims.classify(t[2])[0] in ('open_ro', 'open_rw') and len(t) > 4:
-            v = t[4]
-        elif t[0] == 'sym' and t[1] == 'app' and prims.classify(t[2])[0] == 'fd_raw' and len(t) > 4:
-            v = t[4]        # the raw descriptor of a handle designates the same object
+            pi = 4 + prims.classify(t[2])[1].get('path', 0)
+            v = t[pi] if pi < len(t) else t[4]
+        elif t[0] == 'sym' and t[1] == 'app' and prims.classify(t[2])[0] in ('fd_raw', 'temp_persist') and len(t) > 4:
+            v = t[4]        # the raw descriptor of a handle / a kept temp path designates the same object
         else:
             return v
     return v
